@@ -84,6 +84,19 @@ def gen_cases(r, n):
             items = [gen_item(r, sizes8=(r.random() < 0.5)) for _ in range(r.randint(1, 5))]
             ops = [wop(i) for i in items] + ["re"] + [rop(i) for i in items] + [r.choice(["ro:1", "rs", "rv:8", "ro:8"])]
             out.append(("MS default " + " ".join(ops), {"kind": "rt", "items": items}))
+        elif m < 0.46:
+            # ONE reused destination: vectors of one element size and lengths such as 0,1,3,0,4,2,0 written one after the
+            # other and read back into the same std::vector (the harness keeps one destination per element size, never
+            # empty to begin with): an empty vector after a non-empty one must empty the destination
+            sz = r.choice(SIZES)
+            lens = [r.choice([0, 0, 1, 2, 3, 4, 6]) for _ in range(r.randint(3, 7))]
+            if 0 not in lens[1:]:
+                lens[r.randrange(1, len(lens))] = 0
+            if r.random() < 0.5:
+                lens[0] = r.choice([1, 3, 5])
+            items = [("v", sz, [rbytes(r, sz) for _ in range(n)]) for n in lens]
+            ops = [wop(i) for i in items] + ["re"] + [rop(i) for i in items]
+            out.append(("MS default " + " ".join(ops), {"kind": "rt", "items": items, "reuse": True}))
         elif m < 0.60:
             # proper prefix of a valid stream (valid by the documented format), read with the original types
             items = [gen_item(r) for _ in range(r.randint(1, 3))]
@@ -157,6 +170,24 @@ def gen_cases(r, n):
                 else:
                     ops.append("cl")
             out.append(("MS default " + " ".join(ops), {"kind": "mixed", "len": len(data)}))
+    return out
+
+
+SEQ_TYPES = ["seq_vec_double", "seq_vec_int", "seq_vec_size_t", "seq_vec_float", "seq_vec_char", "seq_vec_rvector", "seq_vector1d",
+             "seq_colvarvalue_vector", "seq_string"]
+
+
+def gen_typed_seq(r, n):
+    """sequences of values of one vector type (and of strings) read back into ONE reused destination through the real operators"""
+    out = []
+    for k in range(n):
+        ty = SEQ_TYPES[k % len(SEQ_TYPES)]
+        lens = [r.choice([0, 0, 1, 2, 3, 4]) for _ in range(r.randint(3, 8))]
+        if k < len(SEQ_TYPES):
+            lens = [0, 1, 3, 0, 4, 2, 0]
+        elif 0 not in lens[1:]:
+            lens[r.randrange(1, len(lens))] = 0
+        out.append(("TY %s %s" % (ty, " ".join(map(str, lens))), {"kind": "typed", "type": ty, "n": len(lens)}))
     return out
 
 
@@ -245,6 +276,12 @@ def oracle(case, meta, impl):
                 ok = False
             if len(reads) > len(items) and reads[len(items)][1] != "N":
                 return ("memstream.read-past-end", "a read after the last item delivered %s" % reads[len(items)][1])
+        if not ok and buf == hx(want):
+            # the bytes are right, a value read back is not: e.g. a destination that keeps (part of) its previous contents
+            firstbad = next((j for j, (i, t) in enumerate(zip(items, reads)) if t[1] != expect_tok(i)), None)
+            return ("memstream.read-back-differs", "the stream holds the documented bytes, but read %s of the sequence delivered %s instead of %s "
+                    "(vector reads go into one reused destination per element size that is never empty to begin with): %s"
+                    % (firstbad, reads[firstbad][1][:60] if firstbad is not None else "?", expect_tok(items[firstbad])[:60] if firstbad is not None else "?", impl[:200]))
         if not ok:
             if bad_sz:
                 return (SIG_VEC, "vector(s) with element size %s do not round trip: bytes %s, expected %s" % (bad_sz, buf, hx(want)))
@@ -288,8 +325,9 @@ def run_codec(run, model, unit, quick):
                     meta = eval(m.strip(), {"__builtins__": {}}, {})
                     l = l.strip()
                 cases.append((l, meta))
-    cases += gen_cases(r, 2500 if quick else 30000)
-    cases += gen_typed(r, 90 if quick else 1800)
+    cases += gen_cases(r, 2500 if quick else 25000)
+    cases += gen_typed(r, 90 if quick else 1200)
+    cases += gen_typed_seq(r, 45 if quick else 450)
     lines = [c for c, _ in cases]
     rc1, impl, e1 = V.run_lines(unit, lines, timeout=900)
     ms_idx = [i for i, c in enumerate(lines) if c.startswith("MS")]
